@@ -4,6 +4,7 @@ C02 helper lemmas: the BibTeXML round trip over the abstract element tree
 -/
 import PybtexModel.Lemmas.BibWriteNames
 import PybtexModel.Lemmas.BibProcess
+import PybtexModel.Lemmas.BibWriteCase
 
 namespace Pybtex.C02
 open Pybtex Pybtex.Bib Pybtex.BibWrite Pybtex.BibSpec
@@ -168,6 +169,16 @@ theorem elementX_text (n v : Str) : (elementX n v).text.getD [] = v := by
   · subst h; rfl
   · simp [elementX, XNode.text, h]
 
+theorem strip_blanks : ∀ (k : Nat), strip (List.replicate k ' ') = [] := by
+  intro k
+  induction k with
+  | zero => rfl
+  | succ k ih => rw [List.replicate_succ, strip_cons_ws _ (by decide)]; exact ih
+
+/-- the indentation text is white space only: `text.strip()` is empty -/
+theorem strip_xmlIndent (n : Nat) : ∃ t, xmlIndent n = some t ∧ strip t = [] :=
+  ⟨_, rfl, by rw [strip_cons_ws _ (by decide)]; exact strip_blanks _⟩
+
 theorem processPersonX_node (role : Str) {p : Person} (hp : WFPerson p = true) (e : Entry)
     (bad : List Str) :
     processPersonX role (personNodeX p) e bad
@@ -185,9 +196,9 @@ theorem processPersonX_node (role : Str) {p : Person} (hp : WFPerson p = true) (
     apply kwOfNodesX_map
     · rw [personParts_eq]; exact (rawParts_pairwise p).filter _
     · intro x hx; exact (personParts_mem hx).2
-  have hs : strip ['\n'] = [] := by decide
-  unfold personNodeX xmlWs
-  rw [processPersonX.eq_def]
+  obtain ⟨t, ht, hs⟩ := strip_xmlIndent (if (personParts p).isEmpty then 4 else 5)
+  unfold personNodeX
+  rw [ht, processPersonX.eq_def]
   simp only [hany, Bool.false_eq_true, if_false, hs, ne_eq, not_true_eq_false, hkw,
     personOfKw_parts hp]
 
@@ -230,7 +241,7 @@ theorem foldl_addPerson_fresh (ps0 : List (Str × List Person)) (role : Str)
 theorem processPersonX_role (r : Str × List Person) (e : Entry) (bad : List Str)
     (hne : r.2 ≠ []) (hwf : ∀ p ∈ r.2, WFPerson p = true)
     (hfresh : ∀ q ∈ e.persons, lower q.1 ≠ lower r.1) :
-    processPersonX r.1 (.elem r.1 none xmlWs (r.2.map personNodeX)) e bad
+    processPersonX r.1 (.elem r.1 none (xmlIndent 4) (r.2.map personNodeX)) e bad
       = .ok ({ e with persons := e.persons ++ [r] }, bad) := by
   obtain ⟨role, ps⟩ := r
   simp only at hne hwf hfresh ⊢
@@ -247,19 +258,19 @@ theorem processPersonX_role (r : Str × List Person) (e : Entry) (bad : List Str
 /-! ### the field loop -/
 
 theorem ciSet_fresh {V : Type} : ∀ (l : List (Str × V)) (k : Str) (v : V),
-    (∀ g ∈ l, lower g.1 ≠ lower k) → ciSet l k v = l ++ [(k, v)] := by
+    (∀ g ∈ l, lowerU g.1 ≠ lowerU k) → ciSet l k v = l ++ [(k, v)] := by
   intro l
   induction l with
   | nil => intro k v _; rfl
   | cons x r ih =>
     intro k v h
     obtain ⟨k', v'⟩ := x
-    have h1 : lower k' ≠ lower k := h (k', v') (by simp)
+    have h1 : lowerU k' ≠ lowerU k := h (k', v') (by simp)
     simp only [ciSet, if_neg h1, List.cons_append, ih k v (fun g hg => h g (by simp [hg]))]
 
 theorem processFieldsX_fields (rest : List XNode) : ∀ (fs : List (Str × Str)) (seen : List Str)
     (e : Entry) (bad : List Str),
-    fieldsOkT false seen fs = true → (∀ g ∈ e.fields, lower g.1 ∈ seen) →
+    fieldsOkT false seen fs = true → (∀ g ∈ e.fields, lowerU g.1 ∈ seen) →
     processFieldsX (fs.map (fun f => elementX f.1 f.2) ++ rest) e bad
       = processFieldsX rest { e with fields := e.fields ++ fs } bad := by
   intro fs
@@ -270,14 +281,14 @@ theorem processFieldsX_fields (rest : List XNode) : ∀ (fs : List (Str × Str))
   | cons f fs ih =>
     intro seen e bad hok hseen
     simp only [fieldsOkT, Bool.and_eq_true, Bool.not_eq_true'] at hok
-    obtain ⟨⟨⟨hpf, _⟩, hns⟩, hrest⟩ := hok
-    have hns' : lower f.1 ∉ seen := by simpa using hns
-    have hfresh : ∀ g ∈ e.fields, lower g.1 ≠ lower f.1 := by
+    obtain ⟨⟨⟨⟨hpf, _⟩, _⟩, hns⟩, hrest⟩ := hok
+    have hns' : lowerU f.1 ∉ seen := by simpa using hns
+    have hfresh : ∀ g ∈ e.fields, lowerU g.1 ≠ lowerU f.1 := by
       intro g hg heq
       exact hns' (heq ▸ hseen g hg)
     simp only [List.map_cons, List.cons_append, processFieldsX, elementX_tag, hpf,
       Bool.false_eq_true, if_false, elementX_text, ciSet_fresh e.fields f.1 f.2 hfresh]
-    rw [ih (lower f.1 :: seen) _ bad hrest]
+    rw [ih (lowerU f.1 :: seen) _ bad hrest]
     · simp only [List.append_assoc, List.singleton_append]
     · intro g hg
       simp only [List.mem_append, List.mem_singleton] at hg
@@ -287,7 +298,7 @@ theorem processFieldsX_fields (rest : List XNode) : ∀ (fs : List (Str × Str))
 
 theorem processFieldsX_roles : ∀ (rs : List (Str × List Person)) (seen : List Str)
     (e : Entry) (bad : List Str),
-    rolesOkT seen rs = true → (∀ q ∈ e.persons, lower q.1 ∈ seen) →
+    rolesOkT seen rs = true → (∀ q ∈ e.persons, lowerU q.1 ∈ seen) →
     processFieldsX (rs.map roleNodesX).flatten e bad
       = .ok ({ e with persons := e.persons ++ rs }, bad) := by
   intro rs
@@ -300,16 +311,16 @@ theorem processFieldsX_roles : ∀ (rs : List (Str × List Person)) (seen : List
     simp only [rolesOkT, Bool.and_eq_true, Bool.not_eq_true', decide_eq_true_eq,
       List.all_eq_true] at hok
     obtain ⟨⟨⟨⟨hpf, hns⟩, hne⟩, hwf⟩, hrest⟩ := hok
-    have hns' : lower r.1 ∉ seen := by simpa using hns
+    have hns' : lowerU r.1 ∉ seen := by simpa using hns
     have hfresh : ∀ q ∈ e.persons, lower q.1 ≠ lower r.1 := by
       intro q hq heq
-      exact hns' (heq ▸ hseen q hq)
-    have hnode : roleNodesX r = [.elem r.1 none xmlWs (r.2.map personNodeX)] := by
+      exact hns' (lowerU_of_lower heq ▸ hseen q hq)
+    have hnode : roleNodesX r = [.elem r.1 none (xmlIndent 4) (r.2.map personNodeX)] := by
       unfold roleNodesX; rw [if_neg hne]
-    have htag : (XNode.elem r.1 none xmlWs (r.2.map personNodeX)).tag = r.1 := rfl
+    have htag : (XNode.elem r.1 none (xmlIndent 4) (r.2.map personNodeX)).tag = r.1 := rfl
     simp only [List.map_cons, List.flatten_cons, hnode, List.cons_append, List.nil_append,
       processFieldsX, htag, hpf, if_true, processPersonX_role r e bad hne hwf hfresh]
-    rw [ih (lower r.1 :: seen) _ bad hrest]
+    rw [ih (lowerU r.1 :: seen) _ bad hrest]
     · simp only [List.append_assoc, List.singleton_append]
     · intro q hq
       simp only [List.mem_append, List.mem_singleton] at hq
@@ -322,7 +333,7 @@ theorem processFieldsX_roles : ∀ (rs : List (Str × List Person)) (seen : List
 theorem processEntryX_node {keys : List Str} {e : Entry} (h : entryOkT false keys e = true) :
     processEntryX (entryNodeX e) = .ok ((e.key, e), []) := by
   simp only [entryOkT, Bool.and_eq_true, beq_iff_eq] at h
-  obtain ⟨⟨⟨hty, _⟩, hroles⟩, hfields⟩ := h
+  obtain ⟨⟨⟨⟨⟨hty, _⟩, _⟩, _⟩, hroles⟩, hfields⟩ := h
   unfold entryNodeX processEntryX
   simp only [XNode.id, XNode.children, XNode.tag]
   rw [processFieldsX_fields _ e.fields [] _ [] hfields (by intro g hg; cases hg)]
@@ -343,7 +354,7 @@ theorem processEntriesX_nodes : ∀ (es : List Entry) (keys : List Str),
       ih _ h.2, List.append_nil]
 
 theorem addEntries_fold : ∀ (es : List Entry) (keys : List Str) (acc : List Entry) (rep : List Str),
-    entriesOkT false keys es = true → (∀ x ∈ acc, lower x.key ∈ keys) →
+    entriesOkT false keys es = true → (∀ x ∈ acc, lowerU x.key ∈ keys) →
     (es.map fun e => (e.key, e)).foldl (fun a p => addEntryPlain a p.1 p.2) (acc, rep)
       = (acc ++ es, rep) := by
   intro es
@@ -353,17 +364,17 @@ theorem addEntries_fold : ∀ (es : List Entry) (keys : List Str) (acc : List En
     intro keys acc rep h hseen
     simp only [entriesOkT, entryOkT, Bool.and_eq_true, Bool.not_eq_true'] at h
     obtain ⟨⟨⟨⟨_, hns⟩, _⟩, _⟩, hrest⟩ := h
-    have hns' : lower e.key ∉ keys := by simpa using hns
-    have hany : acc.any (fun x => lower x.key = lower e.key) = false := by
+    have hns' : lowerU e.key ∉ keys := by simpa using hns
+    have hany : acc.any (fun x => lowerU x.key = lowerU e.key) = false := by
       rw [List.any_eq_false]
       intro x hx
-      have : lower x.key ≠ lower e.key := fun heq => hns' (heq ▸ hseen x hx)
+      have : lowerU x.key ≠ lowerU e.key := fun heq => hns' (heq ▸ hseen x hx)
       simpa using this
     have hstep : addEntryPlain (acc, rep) e.key e = (acc ++ [e], rep) := by
       unfold addEntryPlain
       simp only [hany, Bool.false_eq_true, if_false]
     simp only [List.map_cons, List.foldl_cons, hstep]
-    rw [ih (lower e.key :: keys) (acc ++ [e]) rep hrest]
+    rw [ih (lowerU e.key :: keys) (acc ++ [e]) rep hrest]
     · simp only [List.append_assoc, List.singleton_append]
     · intro x hx
       simp only [List.mem_append, List.mem_singleton] at hx
